@@ -121,7 +121,7 @@ end
 
 /-- the file `d'` is the arranged location-free file `t` with locations as in the printed text -/
 def relaidFile (t d' : FileD) : Prop :=
-  d'.pkg = t.pkg ∧ d'.imports = sortStrings t.imports ∧ sortStrings d'.imports = d'.imports ∧ d'.loc.noComments ∧
+  d'.pkg = t.pkg ∧ d'.imports = sortImports t.imports ∧ sortImports d'.imports = d'.imports ∧ d'.loc.noComments ∧
   optsOk t.opts d'.opts ∧
   t.exts.length = d'.exts.length ∧ (∀ p ∈ t.exts.zip d'.exts, p.2.1 = p.1.1 ∧ fieldOk p.1.2 p.2.2) ∧
   relaidKids true false 0 0 0 t.items d'.items
@@ -744,7 +744,7 @@ theorem printFile_relaid (gen : String) (t d' : FileD) (hu : t.unloc) (hr : rela
     rw [h1, fieldCmds_ok 1 h2 (huexts p.1 hm)]
   have hempty : d'.imports.isEmpty = t.imports.isEmpty := by
     rw [himp]
-    unfold sortStrings
+    unfold sortImports
     cases t.imports with
     | nil => rfl
     | cons x xs =>
